@@ -343,7 +343,7 @@ pub fn ranges(c: &RangeCase, obs: &mut Obs) -> CaseResult {
 }
 
 pub fn run(run: &mut Run) {
-    let n = run.cases(100_000, 10_000_000);
+    let n = run.cases(400_000, 16_000_000);
     run.sub(
         "addr_ops",
         "VirtAddr/PhysAddr + - += -= with edge-biased u64 offsets and the two-operand subtractions; oracle: i128 exact result; a returned value must equal it and be a valid value of the type, a panic is never a violation; non-trivial = at least one exact result not representable; distinct by operands. Runs in overflow-checking (chk) and release-like (rel) builds",
@@ -351,7 +351,7 @@ pub fn run(run: &mut Run) {
         (canon_va(), phys(), prop_oneof![u64_edge(), small_k()], u64_edge()),
         addr_ops,
     );
-    let n = run.cases(100_000, 10_000_000);
+    let n = run.cases(400_000, 16_000_000);
     run.sub(
         "page_ops",
         "Page/PhysFrame<4K,2M,1G> + - += -= u64 (counts small / edge / near u64::MAX/SIZE / >=2^48/SIZE) and page - page, frame - frame; oracle: i128 exact (start + n*SIZE); non-trivial = an exact result not representable",
@@ -359,7 +359,7 @@ pub fn run(run: &mut Run) {
         (size_sel(), canon_va(), phys(), prop_oneof![count(), small_k()], u64_edge()),
         page_ops,
     );
-    let n = run.cases(6_000, 400_000);
+    let n = run.cases(20_000, 800_000);
     run.sub(
         "ranges",
         "exclusive and inclusive Page/PhysFrame ranges of the three sizes inside one half / below 2^52, length 0..4096, placed 0..4096 items from the first or last item of the space (so ranges that end at the last page of either half or at the last physical frame are frequent), plus inverted (empty) ranges; oracle: the model's ascending list, len()=count, size()=len*SIZE, is_empty, as_4kib_page_range covers the same bytes; no panic; non-trivial = contains the first or last item of its space; distinct by (size,space,start,len,inclusive)",
